@@ -5,6 +5,7 @@ package main
 import (
 	"crypto/ed25519"
 	"crypto/rand"
+	"crypto/sha256"
 	"fmt"
 	"io"
 	"net"
@@ -25,12 +26,16 @@ type SSHReq struct {
 
 type SSHInput struct {
 	User      string   `json:"user"`
-	Passwords []string `json:"passwords"` // presented in this order (one connection)
-	Accept    string   `json:"accept"`    // the password the backend accepts for this user ("" = none)
-	Reqs      []SSHReq `json:"requests"`
-	Data      []hx.B   `json:"data"`  // client -> backend channel writes
-	Reply     []hx.B   `json:"reply"` // backend -> client channel writes
-	Texty     bool     `json:"texty"` // reply drawn from an alphabet the session recording renders unambiguously
+	Passwords []string `json:"passwords"` // the client's plan: presented in this order on ONE connection until one is accepted
+	// PubKeys: distinct public keys the client offers (after the initial "none" request,
+	// before its passwords); the proxy refuses them itself and x/crypto/ssh counts them as
+	// failed requests like the passwords
+	PubKeys int      `json:"pubkeys,omitempty"`
+	Accept  string   `json:"accept"` // the password the backend accepts for this user ("" = none)
+	Reqs    []SSHReq `json:"requests"`
+	Data    []hx.B   `json:"data"`  // client -> backend channel writes
+	Reply   []hx.B   `json:"reply"` // backend -> client channel writes
+	Texty   bool     `json:"texty"` // reply drawn from an alphabet the session recording renders unambiguously
 	// HalfClose: the client ends its direction (EOF) after its data; the backend writes its
 	// reply only once it has seen that end (after DelayMs more), then closes the channel
 	HalfClose bool `json:"half_close,omitempty"`
@@ -40,6 +45,11 @@ type SSHInput struct {
 
 type SSHObs struct {
 	ClientOK  bool        `json:"client_authenticated"`
+	PkSent    int         `json:"client_pubkey_offers"`     // public-key offers the client made
+	Sent      int         `json:"client_passwords_sent"`    // passwords the client sent (a prefix of the plan)
+	Verdicts  []int       `json:"client_password_verdicts"` // per password sent: 0 told failure, 1 told success, 2 told nothing (connection ended)
+	End       int         `json:"client_end"`               // 0 authenticated, 1 out of credentials (told failure for each and asked again), 2 the peer ended the connection first
+	EvPk      int         `json:"events_publickey"`
 	BAuth     [][2]string `json:"backend_auth"` // (user, password) attempts the backend saw, in order
 	BConns    int         `json:"backend_connections"`
 	BReqs     []SSHReq    `json:"backend_requests"`
@@ -270,22 +280,58 @@ func (e *env) runSSH(in SSHInput, seq int) (SSHObs, string) {
 		return ob, "server does not accept"
 	}
 	defer cc.Close()
-	pi := 0
+	// The client's side of the authentication dialogue.  x/crypto/ssh asks the callback for
+	// the next password only after the previous one was answered with a failure, so a call
+	// number i+1 is the observation "attempt i was refused and the connection is open";
+	// the call after the last password of the plan is answered with an error (the client
+	// stops by itself).  A connection ended by the peer shows as an error without that.
+	pi, outOfPasswords, pkOffers := 0, false, 0
+	var auth []ssh.AuthMethod
+	if in.PubKeys > 0 {
+		var signers []ssh.Signer
+		for i := 0; i < in.PubKeys; i++ {
+			signers = append(signers, &countingSigner{Signer: offerKey(in.User, i), n: &pkOffers})
+		}
+		auth = append(auth, ssh.PublicKeys(signers...))
+	}
+	auth = append(auth, ssh.RetryableAuthMethod(ssh.PasswordCallback(func() (string, error) {
+		if pi >= len(in.Passwords) {
+			outOfPasswords = true
+			return "", fmt.Errorf("no more passwords")
+		}
+		p := in.Passwords[pi]
+		pi++
+		return p, nil
+	}), len(in.Passwords)+1))
 	ccfg := &ssh.ClientConfig{
 		User:            in.User,
 		HostKeyCallback: ssh.InsecureIgnoreHostKey(),
 		Timeout:         10 * time.Second,
-		Auth: []ssh.AuthMethod{ssh.RetryableAuthMethod(ssh.PasswordCallback(func() (string, error) {
-			if pi >= len(in.Passwords) {
-				return "", fmt.Errorf("no more passwords")
-			}
-			p := in.Passwords[pi]
-			pi++
-			return p, nil
-		}), len(in.Passwords))},
+		Auth:            auth,
 	}
-	cc.SetDeadline(time.Now().Add(20 * time.Second))
+	cc.SetDeadline(time.Now().Add(60 * time.Second))
 	cconn, chans, reqs, err := ssh.NewClientConn(cc, "proxy", ccfg)
+	ob.PkSent, ob.Sent = pkOffers, pi
+	for i := 0; i+1 < pi; i++ {
+		ob.Verdicts = append(ob.Verdicts, 0)
+	}
+	switch {
+	case err == nil:
+		ob.End = 0
+		if pi > 0 {
+			ob.Verdicts = append(ob.Verdicts, 1)
+		}
+	case outOfPasswords:
+		ob.End = 1
+		if pi > 0 {
+			ob.Verdicts = append(ob.Verdicts, 0)
+		}
+	default:
+		ob.End = 2
+		if pi > 0 {
+			ob.Verdicts = append(ob.Verdicts, 2)
+		}
+	}
 	if err == nil {
 		ob.ClientOK = true
 		client := ssh.NewClient(cconn, chans, reqs)
@@ -356,7 +402,7 @@ func (e *env) runSSH(in SSHInput, seq int) (SSHObs, string) {
 	// events (sent asynchronously: wait until the expected ones are there or a short while)
 	deadline := time.Now().Add(600 * time.Millisecond)
 	for {
-		ob.EvPw, ob.EvReqs, ob.EvChan, ob.EvSess, ob.Recording, ob.EvSrcOK = nil, nil, 0, 0, nil, true
+		ob.EvPw, ob.EvReqs, ob.EvChan, ob.EvSess, ob.Recording, ob.EvSrcOK, ob.EvPk = nil, nil, 0, 0, nil, true, 0
 		for _, ev := range e.l.EventsOf("cap") {
 			if ev.Get("category") != "ssh" {
 				continue
@@ -381,6 +427,8 @@ func (e *env) runSSH(in SSHInput, seq int) (SSHObs, string) {
 				continue
 			}
 			switch ev.Get("type") {
+			case "publickey-authentication":
+				ob.EvPk++
 			case "password-authentication":
 				ob.EvPw = append(ob.EvPw, [2]string{ev.Get("ssh.username"), ev.Get("ssh.password")})
 			case "ssh-request":
@@ -398,12 +446,95 @@ func (e *env) runSSH(in SSHInput, seq int) (SSHObs, string) {
 		if ob.ClientOK {
 			want = len(in.Reqs)
 		}
-		if (len(ob.EvReqs) >= want && (!ob.ClientOK || ob.EvSess >= 1)) || time.Now().After(deadline) {
+		if (len(ob.EvReqs) >= want && (!ob.ClientOK || ob.EvSess >= 1) && len(ob.EvPw) >= len(ob.BAuth) && ob.EvPk >= ob.PkSent) || time.Now().After(deadline) {
 			break
 		}
 		time.Sleep(10 * time.Millisecond)
 	}
 	return ob, ""
+}
+
+// countingSigner counts how often the client library fetches the public key for an offer
+// (once per offer as long as the offer is refused).
+type countingSigner struct {
+	ssh.Signer
+	n *int
+}
+
+func (c *countingSigner) PublicKey() ssh.PublicKey {
+	*c.n++
+	return c.Signer.PublicKey()
+}
+
+// offerKey: the i-th key a client offers; a function of the case (replayable), distinct per user and index.
+func offerKey(user string, i int) ssh.Signer {
+	seed := sha256.Sum256([]byte(fmt.Sprintf("c15-offer/%s/%d", user, i)))
+	s, err := ssh.NewSignerFromKey(ed25519.NewKeyFromSeed(seed[:]))
+	if err != nil {
+		hx.Fatal("offer key: %v", err)
+	}
+	return s
+}
+
+// genAuthDialogues: MANY authentication requests on ONE client connection: k passwords the
+// backend refuses and then one it accepts (or none: the client gives up by itself), with and
+// without public-key offers first (they count as refused requests in x/crypto/ssh's
+// loop exactly like passwords).  After a success one short exec exchange both ways.
+func genAuthDialogues(o hx.Opts, r *hx.Rand) []SSHInput {
+	var ins []SSHInput
+	type dlg struct {
+		k, pk  int
+		accept bool
+	}
+	var ds []dlg
+	for _, k := range []int{0, 1, 2, 5, 6, 7, 8, 12, 20} {
+		ds = append(ds, dlg{k, 0, true})
+	}
+	// histories that never succeed
+	for _, k := range []int{0, 6, 7, 12} {
+		ds = append(ds, dlg{k, 0, false})
+	}
+	// offers first
+	ds = append(ds, dlg{3, 3, true}, dlg{1, 6, true}, dlg{0, 7, true}, dlg{4, 2, false}, dlg{6, 1, true}, dlg{5, 1, true})
+	if o.Tier != "quick" {
+		for i := 0; i < 40; i++ {
+			ds = append(ds, dlg{r.PickInt([]int{0, 1, 2, 5, 6, 7, 8, 12, 20}), r.PickInt([]int{0, 0, 1, 2, 3, 5, 6, 7, 9}), r.Chance(3, 4)})
+		}
+	}
+	wrong := []string{"toor", "admin", "123456", "raspberry", "p@ss w0rd'\"", "", "ubnt", "root", "password", "1234"}
+	for i, d := range ds {
+		in := SSHInput{User: fmt.Sprintf("brute%d", i), PubKeys: d.pk}
+		good := fmt.Sprintf("right-%d", i)
+		for j := 0; j < d.k; j++ {
+			// guesses repeat now and then, as a dictionary run does: each one is still to be relayed
+			if j > 0 && r.Chance(1, 6) {
+				in.Passwords = append(in.Passwords, in.Passwords[r.Intn(j)])
+			} else {
+				in.Passwords = append(in.Passwords, fmt.Sprintf("%s-%d", wrong[r.Intn(len(wrong))], j))
+			}
+		}
+		if d.accept {
+			in.Accept = good
+			in.Passwords = append(in.Passwords, good)
+			// the client does not know it will be accepted: its plan goes on (never sent)
+			if r.Chance(1, 2) {
+				in.Passwords = append(in.Passwords, "never-sent")
+			}
+			cmd := r.PickStr([]string{"uname -a", "id", "cat /etc/passwd"})
+			in.Reqs = []SSHReq{{Type: "exec", Want: true, Payload: ssh.Marshal(struct{ Command string }{cmd})}}
+			if r.Chance(1, 2) {
+				in.Reqs = append([]SSHReq{{Type: "env", Want: r.Bool(), Payload: sshPayload(r, "env")}}, in.Reqs...)
+			}
+			in.Texty = true
+			in.Data = []hx.B{hx.B(r.Bytes(r.PickInt([]int{1, 10, 100})))}
+			in.Reply = []hx.B{hx.B(r.BytesFrom(r.PickInt([]int{1, 40, 400}), []byte("abcdefghijklmnopqrstuvwxyz0123456789 \r\n$#:/-_")))}
+		} else {
+			in.Accept = fmt.Sprintf("never-%d", i)
+		}
+		in.Shared = i%3 == 1
+		ins = append(ins, in)
+	}
+	return ins
 }
 
 func sshPayload(r *hx.Rand, ty string) []byte {
@@ -485,6 +616,8 @@ func genSSHInputs(o hx.Opts, r *hx.Rand) []SSHInput {
 		}
 		ins = append(ins, in)
 	}
+	// own stream: the cases above and the dial part that follows stay what they were
+	ins = append(ins, genAuthDialogues(o, hx.NewRand(o.Seed+0xa17))...)
 	return ins
 }
 
@@ -521,11 +654,16 @@ func coqSSHCase(id int, in SSHInput, ob SSHObs) string {
 	for _, b := range ob.Replies {
 		reps = append(reps, hx.CoqBool(b))
 	}
-	return fmt.Sprintf("mkS %s %s %s %s %s %s %s %s %s\n     %s %s %s %s %s %s %s\n     %s %s %s %s %s %s",
-		hx.CoqN(uint64(id)), hx.CoqStr(in.User), hx.CoqList(pws, "bytes"), hx.CoqStr(in.Accept), coqSSHReqs(in.Reqs),
+	var verd []string
+	for _, v := range ob.Verdicts {
+		verd = append(verd, hx.CoqN(uint64(v)))
+	}
+	return fmt.Sprintf("mkS %s %s %s %s %s %s %s %s %s %s\n     %s %s %s %s %s\n     %s %s %s %s %s %s\n     %s %s %s %s %s %s %s",
+		hx.CoqN(uint64(id)), hx.CoqStr(in.User), hx.CoqList(pws, "bytes"), hx.CoqN(uint64(in.PubKeys)), hx.CoqStr(in.Accept), coqSSHReqs(in.Reqs),
 		hx.CoqList(data, "bytes"), hx.CoqList(reply, "bytes"), hx.CoqBool(in.Texty), hx.CoqBool(in.HalfClose),
-		hx.CoqBool(ob.ClientOK), coqCreds(ob.BAuth), hx.CoqN(uint64(ob.BConns)), coqSSHReqs(ob.BReqs), coqPacked(ob.BData), coqPacked(ob.CData), hx.CoqList(reps, "bool"),
-		coqCreds(ob.EvPw), hx.CoqList(evr, "bytes"), hx.CoqN(uint64(ob.EvChan)), hx.CoqN(uint64(ob.EvSess)), coqPacked(ob.Recording), hx.CoqBool(ob.EvSrcOK))
+		hx.CoqBool(ob.ClientOK), hx.CoqN(uint64(ob.PkSent)), hx.CoqN(uint64(ob.Sent)), hx.CoqList(verd, "N"), hx.CoqN(uint64(ob.End)),
+		coqCreds(ob.BAuth), hx.CoqN(uint64(ob.BConns)), coqSSHReqs(ob.BReqs), coqPacked(ob.BData), coqPacked(ob.CData), hx.CoqList(reps, "bool"),
+		hx.CoqN(uint64(ob.EvPk)), coqCreds(ob.EvPw), hx.CoqList(evr, "bytes"), hx.CoqN(uint64(ob.EvChan)), hx.CoqN(uint64(ob.EvSess)), coqPacked(ob.Recording), hx.CoqBool(ob.EvSrcOK))
 }
 
 func runSSHPart(o hx.Opts, r *hx.Rand, e *env, replay *Input) {
@@ -541,6 +679,13 @@ func runSSHPart(o hx.Opts, r *hx.Rand, e *env, replay *Input) {
 	for i, in := range ins {
 		ob, crash := e.runSSH(in, i)
 		dist[fmt.Sprintf("passwords:%d", len(in.Passwords))]++
+		dist[fmt.Sprintf("passwords-sent:%d", ob.Sent)]++
+		if in.PubKeys > 0 {
+			dist[fmt.Sprintf("pubkey-offers:%d", in.PubKeys)]++
+		}
+		if refused := ob.Sent + ob.PkSent; refused > 6 {
+			dist["more-than-6-auth-requests-on-one-connection"]++
+		}
 		dist[fmt.Sprintf("requests:%d", minInt(len(in.Reqs), 5))]++
 		if ob.ClientOK {
 			dist["authenticated"]++
